@@ -113,6 +113,12 @@ pub struct NodeRec {
     pub exec_count: u32,
     /// interned nodes only: currently present according to the model
     pub alive: bool,
+    /// intern_ref nodes only: the epoch signature at which the documented algorithm last
+    /// verified / re-pointed the node
+    pub iref_verified_epoch: u64,
+    /// intern_ref nodes only: where the documented algorithm says the pointer points: the
+    /// value of `rows(owner)` that had this change count
+    pub iref_pointee: Option<(u8, u64)>,
 }
 
 #[derive(Clone, Debug)]
@@ -278,6 +284,44 @@ impl Tracker {
         rec.alive = true;
         rec.must_cached = true;
         self.read(Dep::D(key));
+    }
+
+    /// A signature of pico's epoch: it changes exactly when some source change advances the
+    /// epoch (equal-value writes change neither).
+    pub fn epoch_sig(&self) -> u64 {
+        self.cell_version.values().sum::<u64>() + self.single_version[0] + self.single_version[1] + self.counter_version
+    }
+
+    /// `intern_ref(&rows(owner)[i])` was called. Mirrors the documented algorithm of
+    /// `intern_ref`: a new node points at the caller's value; an existing node is re-pointed
+    /// to the caller's value unless it was already verified in the current epoch.
+    pub fn interned_ref(&mut self, key: NKey, owner: u8) {
+        let epoch = self.epoch_sig();
+        let owner_cc = self.recs.get(&NKey::Rows(owner)).map(|r| r.change_count).unwrap_or(0);
+        let rec = self.recs.entry(key.clone()).or_default();
+        if !rec.alive {
+            rec.alive = true;
+            rec.iref_pointee = Some((owner, owner_cc));
+            rec.iref_verified_epoch = epoch;
+        } else if rec.iref_verified_epoch != epoch {
+            rec.iref_pointee = Some((owner, owner_cc));
+            rec.iref_verified_epoch = epoch;
+        }
+        rec.must_cached = true;
+        self.read(Dep::D(key));
+    }
+
+    /// The value an intern_ref node points into (per the documented algorithm) is still held
+    /// by its owner: `rows(owner)` is cached and has not produced another value since.
+    pub fn iref_pointee_alive(&self, key: &NKey) -> bool {
+        let Some(rec) = self.recs.get(key) else { return false };
+        let Some((owner, cc)) = rec.iref_pointee else { return false };
+        rec.alive
+            && self
+                .recs
+                .get(&NKey::Rows(owner))
+                .map(|r| r.must_cached && r.has_value && r.change_count == cc)
+                .unwrap_or(false)
     }
 
     pub fn interned_alive(&self, key: &NKey) -> Option<u64> {
